@@ -68,7 +68,7 @@ macro_rules! for_each_shape {
 }
 
 /// Drop-counting shapes (not Copy): per-type destructor counters, also for ZSTs.
-pub trait DShape: Sized + 'static {
+pub trait DShape: Sized + PartialEq + std::fmt::Debug + 'static {
     const NAME: &'static str;
     fn make(id: u32) -> Self;
     fn ok(&self, id: u32) -> bool;
@@ -98,6 +98,16 @@ macro_rules! dshape {
         impl Drop for $name {
             fn drop(&mut self) {
                 $ctr.fetch_add(1, Ordering::Relaxed);
+            }
+        }
+        impl PartialEq for $name {
+            fn eq(&self, o: &Self) -> bool {
+                self.0 == o.0
+            }
+        }
+        impl std::fmt::Debug for $name {
+            fn fmt(&self, f: &mut std::fmt::Formatter<'_>) -> std::fmt::Result {
+                write!(f, "{}{:?}", stringify!($name), &self.0[..self.0.len().min(2)])
             }
         }
     };
